@@ -17,6 +17,8 @@ pub enum Idx {
     Past(u32),
     /// usize::MAX - k
     Max(u32),
+    /// position k * (len + 2) >> 16: covers 0..=len+1 for any length and shrinks towards 0
+    Frac(u16),
 }
 
 impl Idx {
@@ -26,6 +28,7 @@ impl Idx {
             Idx::FromEnd(k) => len.saturating_sub(k as usize),
             Idx::Past(k) => len + k as usize,
             Idx::Max(k) => usize::MAX - k as usize,
+            Idx::Frac(k) => ((k as u64 * (len as u64 + 2)) >> 16) as usize,
         }
     }
 }
@@ -38,6 +41,7 @@ impl fmt::Display for Idx {
             Idx::Past(k) => write!(f, "len+{k}"),
             Idx::Max(0) => write!(f, "MAX"),
             Idx::Max(k) => write!(f, "MAX-{k}"),
+            Idx::Frac(k) => write!(f, "frac({k}/65536 of len+2)"),
         }
     }
 }
